@@ -280,7 +280,7 @@ func c14Run(c *core.Ctx) {
 	c.Info("history_depth", fmt.Sprint(depth))
 	var ops []extOp
 	for a := range extAttach {
-		for p := range extPreds {
+		for p := range extPreds[:8] {
 			ops = append(ops, extOp{Attach: a, Pred: p, Aliases: (a + p) % 3})
 		}
 	}
